@@ -290,7 +290,7 @@ def _termination(facts, rep):
             if not ok:
                 rep.add(Finding("R01.2", "%s : loop without finite source" % n, "a loop in %s may not terminate: %s" % (n, why),
                                 span_loc(b.blocks[h]["term"].get("span")) if b.blocks[h]["term"].get("span") else b.loc()))
-    rep.instances("R01.2", nloops, floor=8, what="natural loops in bodies reachable from the reader thread")
+    rep.instances("R01.2", nloops, floor=3, what="natural loops in bodies reachable from the reader thread")
     # the TCP loop is only entered when args.tcp is non-empty
     for r in roots:
         b = facts.bodies[r]
